@@ -162,6 +162,7 @@ struct Task
 	bool modified_since_open = false ;
 	int64_t emb_k = -1, emb_len = 0 ;
 	bool auto_on = false, update_requested = false ;
+	bool raw_read_done = false ;		// a raw read bypassed the decoder on this handle (matters for delta codecs)
 	SimFileP emb_file ;
 	bool done () const { return !ops || pc >= ops->size () ; }
 } ;
@@ -372,7 +373,7 @@ struct Exec
 		t.pos_known = true ;
 		t.ref.clear () ;
 		t.modified_since_open = false ;
-		t.auto_on = false ; t.update_requested = false ;
+		t.auto_on = false ; t.update_requested = false ; t.raw_read_done = false ;
 		Digest d = digest (t) ;
 		t.seekable = d.ok ? d.v [DG_SEEKABLE] != 0 : t.info.seekable != 0 ;		// sf_open zeroes SF_INFO.seekable in write mode
 		t.ch = t.info.channels ;
@@ -556,6 +557,7 @@ struct Exec
 		}
 		r.ret = got ; r.err = sf_error (t.sf) ;
 		int64_t gitems = T == T_RAW ? got : (fr ? got * ch : got) ;
+		if (T == T_RAW && got > 0) t.raw_read_done = true ;
 		if (got > 0 && got <= asked) r.dh = fnv1a (buf, (size_t) (T == T_RAW ? got : gitems * stype_size (T))) ;
 		if (op.geti ("keep", 0) && got > 0 && got <= asked && T != T_RAW)
 		{	std::vector<uint64_t> &kv = res.kept [t.id] ;
@@ -633,6 +635,7 @@ struct Exec
 								std::string disc = (B > 1 && fr_i >= (t.frames / B) * B) ? "last_partial_block" : (fr_i == t.rd ? "first_after_position" : "interior") ;
 								// ALAC counts frames exactly but decodes in packets of 4096: say whether the frame lies in the last packet of the file
 								if (t.fmt->sub >= SF_FORMAT_ALAC_16 && t.fmt->sub <= SF_FORMAT_ALAC_32 && t.frames > 0 && fr_i >= ((t.frames - 1) / 4096) * 4096) disc += "+last_packet" ;
+								if (t.raw_read_done && (t.fmt->sub == SF_FORMAT_DPCM_8 || t.fmt->sub == SF_FORMAT_DPCM_16)) disc += "+after_raw" ;
 								snprintf (b, sizeof (b), "frame %lld ch %lld: got 0x%llx, sequential reference 0x%llx (read started at frame %lld)", (long long) fr_i, (long long) (k % ch), (unsigned long long) have, (unsigned long long) (*S) [k], (long long) t.rd) ;
 								viol (t, "data.ref", disc.c_str (), b) ; break ;
 							}
